@@ -86,7 +86,7 @@ finally:
     subprocess.run(["git", "-C", "/repo", "worktree", "remove", "--force", wt], capture_output=True)
     mine = re.sub(r"\W", "_", wt)                  # only this run's scratch (other evaluations may be running)
     for d in os.listdir("/verif/run"):
-        if d.endswith(mine) or d.endswith(mine + "_search"):
+        if mine in d:
             shutil.rmtree(os.path.join("/verif/run", d), ignore_errors=True)
     for d in os.listdir("/verif/run/bin") if os.path.isdir("/verif/run/bin") else []:
         if mine in d:
